@@ -5,6 +5,7 @@ import (
 	_ "verifharness/c01"
 	_ "verifharness/c02"
 	_ "verifharness/c04"
+	_ "verifharness/c05"
 	_ "verifharness/c10"
 	_ "verifharness/c18"
 )
